@@ -2,10 +2,10 @@ SPECIFICATION Spec
 CONSTANTS
   NB = 3
   NS = 3
-  MaxLen = 4
-  Symmetric = TRUE
+  MaxLen = 3
   Inits = "diag"
-  Emit = FALSE
-INVARIANTS TypeOK WF Refines EmitCase
+  Symmetric = TRUE
+  Emit = TRUE
+INVARIANTS TypeOK WF Refines KnownSound EmitCase
 VIEW View
 CHECK_DEADLOCK FALSE
